@@ -613,7 +613,7 @@ def main():
   os.environ["C13_COUNT_DIR"] = d
   try:
     explore.explore(rep, "checks.C13", "C13Monitor", n_quick=640, n_thorough=8000,
-                    budget_quick_s=35, budget_thorough_s=700)
+                    budget_quick_s=30, budget_thorough_s=700)
     tot = {}
     for f in os.listdir(d):
       with open(os.path.join(d, f)) as fh:
